@@ -1,5 +1,5 @@
 """Properties that have a check (MANIFEST.json is written from this by py/tools/make_manifest.py)."""
-PROPS = ['C01', 'C02', 'C03', 'C04', 'C05', 'C07', 'C08', 'C09', 'C10', 'C11', 'C12', 'C13', 'C14', 'C15', 'C16', 'C17', 'C18', 'C19', 'C20']
+PROPS = ['C01', 'C02', 'C03', 'C04', 'C05', 'C06', 'C07', 'C08', 'C09', 'C10', 'C11', 'C12', 'C13', 'C14', 'C15', 'C16', 'C17', 'C18', 'C19', 'C20']
 
 _PENDING = 'no check registered yet: the Lean model and correspondence for this property are still being built (DESIGN.md §8)'
 NOT_APPLICABLE = {f'C{i:02d}': _PENDING for i in range(1, 21)}
